@@ -284,6 +284,7 @@ type c08Run struct {
 	snap     map[uint64]map[string]string
 	corrupt  string
 	usedIDs  []uint64 // checkpoint ids used by the running instance
+	probes   []chan struct{} // NeedsTable calls waiting for the list mutex
 	freeStart bool    // the next instance starts with a scheduler that parks nothing
 	freeMode  bool    // the running instance was started that way: only reads are compared from here on
 	held     *c08Held
@@ -812,6 +813,23 @@ func runC08Trace(c lib.Case) []string {
 			case <-time.After(schedGrace):
 				emit("timeout")
 			}
+		case "probe":
+			// a real list operation issued while a save may be held: DB.NeedsTable -> CheckpointList.IncludesTable. It has no
+			// effect, so it can really be called: with the list mutex held by the save it does not return before `release`.
+			done := make(chan struct{})
+			go func() { db.NeedsTable("memory:///no-such-table.sst"); close(done) }()
+			select {
+			case <-done:
+				emit("free")
+			case <-time.After(5 * time.Millisecond):
+				if r.held == nil {
+					<-done // nothing can hold it: it was just slow
+					emit("free")
+				} else {
+					r.probes = append(r.probes, done)
+					emit("blocked")
+				}
+			}
 		case "release":
 			if r.held == nil {
 				emit("none")
@@ -820,6 +838,19 @@ func runC08Trace(c lib.Case) []string {
 			hd := r.held
 			r.held = nil
 			close(hd.gate.open)
+			probesBack := true
+			for _, p := range r.probes {
+				select {
+				case <-p:
+				case <-time.After(schedGrace):
+					probesBack = false
+				}
+			}
+			r.probes = nil
+			if !probesBack {
+				emit("timeout probes")
+				continue
+			}
 			select {
 			case x := <-hd.res:
 				if x.err != nil {
@@ -918,18 +949,7 @@ func runC08Trace(c lib.Case) []string {
 				dir = fmt.Sprintf("%s-d%d", r.root, r.dirN)
 			}
 			// a restore from id abandons the later checkpoints; the user keeps the handles of the earlier ones
-			for h := range r.user {
-				if h > id {
-					delete(r.user, h)
-				} else if h < id {
-					r.lost[h] = true
-				}
-			}
-			for h := range r.lost {
-				if h > id {
-					delete(r.lost, h)
-				}
-			}
+			// the user keeps every handle: retention is decided by retention updates, not by a restart
 			if f[2] == "fresh" {
 				r.dirIdx = r.dirN
 			}
@@ -973,18 +993,6 @@ func runC08Trace(c lib.Case) []string {
 			}
 			h := r.handles[id]
 			r.crash()
-			for x := range r.user { // as for `reopen`: later checkpoints are abandoned, earlier ones are in the D50 situation
-				if x > id {
-					delete(r.user, x)
-				} else if x < id {
-					r.lost[x] = true
-				}
-			}
-			for x := range r.lost {
-				if x > id {
-					delete(r.lost, x)
-				}
-			}
 			r.lineage = []uint64{id}
 			r.usedIDs = []uint64{id}
 			r.handles = map[uint64]recovery.CheckpointHandle{id: h}
@@ -1356,7 +1364,7 @@ func (g *c08Gen) reopen(id uint64) {
 	g.add(fmt.Sprintf("reopen %d %s", id, mode))
 	g.lineage = []uint64{id}
 	g.phase = map[uint64]int{id: 2}
-	g.user = slices.DeleteFunc(g.user, func(x uint64) bool { return x > id })
+
 	g.next = id + 1 // a restored job continues numbering after the checkpoint it restored (ids of the abandoned future are reused)
 	g.observe(g.r.Chance(1, 2))
 }
@@ -1417,8 +1425,10 @@ func (g *c08Gen) overlap() {
 			g.add(fmt.Sprintf("cw %d", probe))
 			g.add(fmt.Sprintf("cd %d", probe))
 		case 4:
-			if p := g.pendingIDs(1); len(p) > 0 {
+			if p := g.pendingIDs(1); len(p) > 0 && g.r.Bool() {
 				g.add(fmt.Sprintf("cd %d", lib.Pick(g.r, p)))
+			} else {
+				g.add("probe")
 			}
 		case 5:
 			if len(g.lineage) > 0 {
@@ -1559,6 +1569,10 @@ func c08Fixed() []lib.Case {
 		// restart it still does.
 		{Header: hdr, Ops: []string{"put " + k + " 01", "ckpt 1", "cw 1", "cd 1", "put " + k2 + " 02", "ckpt 2", "cw 2", "cd 2", "retain 1,2",
 			"reopen 2 same", "peek 1", "put " + k3 + " 03", "ckpt 3", "cw 3", "cd 3", "peek 1", "peek 2", "peek 3", "intact"}, Tags: []string{"witness-D50"}},
+		// D67 (open): checkpoint 1 with nothing flushed, flush, checkpoint 2, both retained; restart from the OLDER checkpoint 1 in
+		// the same directory, write, flush: the table file of checkpoint 2 is overwritten, its handle restores wrong contents
+		{Header: hdr, Ops: []string{"put " + k + " 01", "ckpt 1", "cw 1", "cd 1", "put " + k2 + " 02", "put " + z + " " + big, "bg f", "bg f", "ckpt 2", "cw 2", "cd 2",
+			"retain 1,2", "peek 2", "reopen 1 same", "peek 2", "put " + k3 + " 03", "put " + z + " " + big, "bg f", "bg f", "peek 1", "peek 2", "intact"}, Tags: []string{"witness-D67"}},
 		// the same with the restart in a fresh directory: the old directory's document is left alone, handle 1 keeps working
 		// (its document is outside the model's single name space: `otherdir`)
 		{Header: hdr, Ops: []string{"put " + k + " 01", "ckpt 1", "cw 1", "cd 1", "put " + k2 + " 02", "ckpt 2", "cw 2", "cd 2", "retain 1,2",
@@ -1579,8 +1593,8 @@ func c08Fixed() []lib.Case {
 			"peek 2", "peek 3", "peek 4", "reopen 2 same", "scan -", "intact"}, Tags: []string{"retain-keeps-newer"}},
 		// overlapping saves: the document write of checkpoint 1 is held while checkpoint 2 is taken and completed
 		// (blocked behind the list mutex in the code as it is, then repeated); both must restore afterwards
-		{Header: hdr, Ops: []string{"put " + k + " 01", "ckpt 1", "cw 1", "hcd 1", "put " + k2 + " 02", "ckpt 2", "cw 2", "cd 2", "release",
-			"peek 1", "peek 2", "ckpt 2", "cw 2", "cd 2", "peek 1", "peek 2", "hretain 2", "put " + k3 + " 03", "ckpt 3", "cw 3", "cd 3", "release",
+		{Header: hdr, Ops: []string{"put " + k + " 01", "ckpt 1", "cw 1", "probe", "hcd 1", "probe", "put " + k2 + " 02", "ckpt 2", "cw 2", "cd 2", "release",
+			"probe", "peek 1", "peek 2", "ckpt 2", "cw 2", "cd 2", "peek 1", "peek 2", "hretain 2", "put " + k3 + " 03", "ckpt 3", "cw 3", "cd 3", "release",
 			"peek 2", "peek 3", "ckpt 3", "cw 3", "cd 3", "peek 2", "peek 3", "intact"}, Tags: []string{"overlapping-saves"}},
 		// chain: checkpoint → restore (fresh directory) → write → flush → checkpoint → restore → older one gone from the lineage
 		{Header: hdr, Ops: []string{"put " + k + " 01", "ckpt 1", "put " + k2 + " 02", "cw 1", "cd 1", "reopen 1 fresh", "scan -", "put " + k3 + " 03",
@@ -1638,7 +1652,7 @@ func propC08() *lib.Prop {
 		MObs: func(op string) bool {
 			return strings.HasPrefix(op, "bg ") || strings.HasPrefix(op, "cw ") || strings.HasPrefix(op, "cd ") ||
 				strings.HasPrefix(op, "ckpt ") || strings.HasPrefix(op, "retain ") || strings.HasPrefix(op, "hcd ") ||
-				strings.HasPrefix(op, "hretain ") || strings.HasPrefix(op, "hretaind ") || op == "release"
+				strings.HasPrefix(op, "hretain ") || strings.HasPrefix(op, "hretaind ") || op == "release" || op == "probe"
 		},
 	}
 }
